@@ -24,8 +24,8 @@ use debian_control::fields::{MultiArch, Priority};
 use std::str::FromStr;
 use std::sync::OnceLock;
 
-type LP = deb822_lossless::lossy::Paragraph;
-type LL = deb822_lossless::lossless::Paragraph;
+pub type LP = deb822_lossless::lossy::Paragraph;
+pub type LL = deb822_lossless::lossless::Paragraph;
 
 // ------------------------------------------------------------------ synthetic struct family
 // (translated by tools/translate.py structs exactly like the shipped structs)
@@ -221,7 +221,7 @@ fn struct_rows() -> &'static Vec<StructRow> {
             .collect()
     })
 }
-fn struct_row(id: &str) -> Option<&'static StructRow> {
+pub fn struct_row(id: &str) -> Option<&'static StructRow> {
     struct_rows().iter().find(|s| s.id == id)
 }
 
@@ -248,6 +248,14 @@ fn external(ser: &str, de: &str, ty: &str, t: &str) -> Option<Result<String, Str
             .map_err(|e| e.to_string()),
         _ => return None,
     })
+}
+
+/// the external-codec answer for the field of struct `id` that reads key `k` (None: no such field,
+/// or its codec is modelled in Lean)
+pub fn external_for_key(id: &str, k: &str, t: &str) -> Option<Result<String, String>> {
+    let row = struct_row(id)?;
+    let f = row.fields.iter().find(|f| f.key == k)?;
+    external(&f.ser, &f.de, &f.ty, t)
 }
 
 // ------------------------------------------------------------------ paragraphs
@@ -566,9 +574,8 @@ fn value_in_domain(row: &StructRow, toks: &[&str]) -> bool {
     row.fields.iter().zip(toks.iter()).all(|(f, t)| match tokv(t) {
         Some(Tokv::L(l)) => {
             if f.de.ends_with("deserialize_package_list") {
-                // splitLinesCodec.canon without its `l ≠ []` conjunct: the empty list is a value the
-                // code should represent (finding F-C16-2), so it stays inside the oracle's domain
-                l.iter().all(|w| !w.contains('\n'))
+                // splitLinesCodec.canon: no element contains a newline; [""] prints like []
+                l.iter().all(|w| !w.contains('\n')) && !(l.len() == 1 && l[0].is_empty())
             } else if f.de.ends_with("deserialize_list") {
                 l.iter().all(|w| !w.is_empty() && !w.contains('\n') && !w.ends_with('\r'))
             } else {
@@ -776,7 +783,7 @@ pub fn handle(op: &str, a: &[&str]) -> Option<Resp> {
 // ------------------------------------------------------------------ generators
 
 /// texts for a leaf codec: first the ones it accepts (canonical first), then ones it rejects
-fn pool(f: &FieldRow) -> (Vec<&'static str>, Vec<&'static str>) {
+pub fn pool(f: &FieldRow) -> (Vec<&'static str>, Vec<&'static str>) {
     let ty = f.ty.as_str();
     let de = f.de.as_str();
     if de.ends_with("yesno") || de.ends_with("to_bool") {
@@ -810,7 +817,7 @@ fn pool(f: &FieldRow) -> (Vec<&'static str>, Vec<&'static str>) {
             } else if de.ends_with("deserialize_list") {
                 (vec!["a", "a\nb", "", "a\n", "a\n\nb", "a\r\nb"], vec![])
             } else {
-                (vec!["a", "a b c", "", " a  b ", "a\nb", "main contrib"], vec![])
+                (vec!["a", "a b c", "", " a  b ", "a\nb", "main contrib", "x #y z"], vec![])
             }
         }
         _ => (vec!["value", "two words", "", "multi\nline", " lead", "é", "a: b", "#hash"], vec![]),
@@ -865,7 +872,7 @@ fn text_safe(entries: &[(String, String)]) -> bool {
         !k.is_empty()
             && k.chars().all(|c| c.is_ascii_graphic() && c != ':' && c != '#')
             && !k.starts_with('-')
-            && v.split('\n').enumerate().all(|(i, l)| l.trim() == l && !l.is_empty() || (i == 0 && l.is_empty() && !v.contains('\n')))
+            && v.split('\n').enumerate().all(|(i, l)| (l.trim() == l && !l.is_empty() && !(i > 0 && l.starts_with('#'))) || (i == 0 && l.is_empty() && !v.contains('\n')))
     })
 }
 
